@@ -2,7 +2,7 @@
    map keys and the order-preserving map.  Executable definitions only (no proofs),
    shaped like the Rust code they follow:
 
-     crates/runtime/src/types/number.rs     KNumber: PartialEq / Ord / Hash (to_bits)
+     crates/runtime/src/types/number.rs     KNumber: PartialEq / Ord / Hash (normalized f64 bits)
      crates/runtime/src/types/value_key.rs  ValueKey: PartialEq / Hash / PartialOrd
      crates/runtime/src/vm.rs               run_equal / run_not_equal / run_less .. /
                                             compare_value_ranges / compare_value_maps /
@@ -82,6 +82,13 @@ Definition num_ge a b := match num_cmp a b with Lt => false | _ => true end.
 (* KNumber::to_bits: `n as u64` for integers *)
 Definition num_bits (n : num) : Z :=
   match n with I z => z mod 18446744073709551616 | F x => fbits x end.
+
+(* impl Hash for KNumber: the number as f64 (`n as f64` for integers), -0.0 normalized to 0.0
+   (`if n == 0.0 { 0.0 } else { n }`), then write_u64(to_bits) *)
+Definition fzero : f64 := Binary.B754_zero 53 1024 false.
+Definition fnorm (x : f64) : f64 := if feq x fzero then fzero else x.
+Definition num_hash_bits (n : num) : Z :=
+  fbits (fnorm (match n with I z => i2f z | F x => x end)).
 
 (* ------------------------------------------------------------------ values *)
 
@@ -188,12 +195,12 @@ Definition range_stream (lo : option Z) (hi : option (Z * bool)) : list hword :=
   | Some s, Some (e, i) => [W64 3; W64 s; W64 e; W8 (if i then 1 else 0)]
   end.
 
-(* impl Hash for ValueKey; KNumber::hash = write_u64(to_bits) *)
+(* impl Hash for ValueKey; KNumber::hash = write_u64 of the normalized f64 bits *)
 Fixpoint hstream (v : val) : list hword :=
   match v with
   | VNull => []
   | VBool b => [W8 (if b then 1 else 0)]
-  | VNum n => [W64 (num_bits n)]
+  | VNum n => [W64 (num_hash_bits n)]
   | VStr s => [WBytes s; W8 255]
   | VRange lo hi => range_stream lo hi
   | VTuple l => (fix cat (l : list val) := match l with [] => [] | x :: r => hstream x ++ cat r end) l
